@@ -7,6 +7,8 @@ import Khttp.Driver.Route
 import Khttp.Driver.Print
 import Khttp.Driver.Epoll
 import Khttp.Driver.Loop
+import Khttp.Driver.Body
+import Khttp.Driver.Conn
 open Khttp Khttp.Driver
 
 def answer (line : String) : String :=
@@ -24,6 +26,8 @@ def answer (line : String) : String :=
     | "EPOLLTRACE" => epollTraceLine arg
     | "CLI" => cliLine arg
     | "RDREQ" => rdreqLine arg
+    | "BODY" => bodyLine arg
+    | "CONN" => connLine arg
     | "DATECACHE" => dateCacheLine arg
     | "POOLTRACE" => poolTraceLine arg
     | _ => "BAD-DOMAIN"
